@@ -429,6 +429,8 @@ func (x *Exec) assumeWF(st *State, v *Term) {
 		if u.Kind() == types.Uint8 {
 			st.AssumeOnce(And(Le(IntLit(0), v), Lt(v, IntLit(256))))
 		}
+	case *types.Interface:
+		st.AssumeOnce(Implies(Eq(App("Int", "itag", v), IntLit(0)), Eq(v, mk("Iface", "inil"))))
 	}
 }
 
